@@ -35,8 +35,12 @@ def factorize_arrow_arr(
     if isinstance(arr, pa.ChunkedArray):
         arr = arr.combine_chunks()
 
-    # null keys have a null index: give them the -1 code instead of NaN
-    codes = arr.indices.fill_null(-1).to_numpy(zero_copy_only=False)
+    indices = arr.indices
+    if indices.null_count > 0:
+        # null keys have a null index: give them the -1 code instead of NaN
+        # (dictionary indices may be unsigned)
+        indices = indices.cast(pa.int64()).fill_null(-1)
+    codes = indices.to_numpy(zero_copy_only=False)
     labels = pd.Index(arr.dictionary.to_pandas(types_mapper=pd.ArrowDtype), name=name)
 
     return codes, labels
